@@ -59,6 +59,8 @@ class Scenario:
         self.resp_range: dict[int, tuple] = {}
         self.addr_updates: list[tuple[float, list]] = []
         self.value_hist: dict = {}
+        self.sent_blobs: dict[int, list] = {}
+        self.injected_frames = 0
         self.tainted: set[int] = set()  # connections that carried an injected unsolicited response
         self.unsolicited: list[dict] = []
 
@@ -264,6 +266,8 @@ class Scenario:
         if self.burst is not None and kind == "event":
             self.burst.append(data)
             return
+        if session.secure and kind in ("response", "event"):
+            self.sent_blobs.setdefault(session.no, []).append(data)
         if serial is not None:
             self.resp_range[serial] = (conn.no, conn.queued_a2c, conn.queued_a2c + len(data))
         self.w._orig_out(session, data, kind, serial)
@@ -424,6 +428,29 @@ class Scenario:
                 ctx.probe("unsolicited_response_while_idle")
             else:
                 ctx.probe("unsolicited_skipped")
+        elif kind in ("replay_frame", "future_frame"):
+            sess = self._current_session()
+            if sess is None or not sess.secure or sess.closed:
+                ctx.probe("frame_injection_skipped")
+                return
+            blobs = self.sent_blobs.get(sess.no, [])
+            if kind == "replay_frame":
+                if not blobs:
+                    ctx.probe("frame_injection_skipped")
+                    return
+                data = blobs[op.get("which", 0) % len(blobs)]
+                ctx.probe("replayed_frame_injected")
+            else:
+                enc = sess.enc
+                saved = enc.counter
+                enc.counter = saved + op.get("k", 1)
+                data = enc.seal_frame(b"EVENT/1.0 200 OK\r\nContent-Type: application/hap+json\r\nContent-Length: 2\r\n\r\n{}")
+                enc.counter = saved
+                ctx.probe("future_frame_injected")
+            self.legit_disturb.setdefault(sess.conn.no, []).append(loop.time())
+            self.tainted.add(sess.conn.no)
+            self.injected_frames += 1
+            self.w._orig_out(sess, data, "injected", None)
         elif kind == "desc_update":
             self.triggers.append((loop.time(), "desc_update"))
             self.addr_updates.append((loop.time(), [_norm(a) for a in op["addrs"]]))
